@@ -2294,6 +2294,28 @@ unit(name="SrcLess", props="property C04", file="src/data_structures/bwt.rs", im
                      theorem="RbV.Thm.GenSrcLess.less_eq_model")])
 
 
+# `FMIndexable::backward_search`: a provided method of the trait; the three required methods it calls are abstract
+# (`self.less(a)`, `self.occ(r, a)` function parameters, `self.bwt()` a value); the pattern iterator
+# (`Iterator<Item = &u8> + DoubleEndedIterator`, consumed through `.rev()`) is the list of its items
+unit(name="SrcBackwardSearch", props="property C05", file="src/data_structures/fmindex.rs",
+     aliases={"Interval": "(usize, usize)", "BWT": "Vec<u8>"},
+     enums={"BackwardSearchResult": dict(variants=[("Complete", ["Interval"]), ("Partial", ["Interval", "usize"]),
+                                                   ("Absent", [])])},
+     pinned_items=["pub struct Interval { pub lower: usize, pub upper: usize, }",
+                   "pub enum BackwardSearchResult { Complete(Interval), Partial(Interval, usize), Absent, }"],
+     functions=[dict(name="FMIndexable::backward_search", lean="backward_search",
+                     header="fn backward_search<'b, P: Iterator<Item = &'b u8> + DoubleEndedIterator>(&self, pattern: P,) "
+                            "-> BackwardSearchResult",
+                     abstract_fns={"self.less": dict(lean="lessF", args=["u8"], ret="usize"),
+                                   "self.occ": dict(lean="occF", args=["usize", "u8"], ret="usize"),
+                                   "self.bwt": dict(lean="bwt", args=[], ret="&BWT", is_value=True)},
+                     params=[("pattern", "&[u8]")], ret="BackwardSearchResult",
+                     struct_fields={"Interval": ["lower", "upper"]},
+                     locals={"l": "usize", "r": "usize", "pl": "usize", "pr": "usize", "matched_len": "usize",
+                             "complete_match": "bool", "lower": "usize", "upper": "usize"},
+                     theorem="RbV.Thm.GenSrcBackwardSearch.backward_search_eq_model")])
+
+
 # ================================================================================================== self-test
 
 SELFTEST_RS = r"""
